@@ -36,14 +36,14 @@ TRUSTED = [
 ]
 
 ACTS = ["ANone", "ASet", "ADel", "ASetOther", "ASetDel"]
-DVARIANTS = [[], ["x"], ["hy"], ["x", "hy"]]
+DVARIANTS = [[], ["x"], ["hy"], ["x", "hy"], ["hyNone"], ["x", "hyNone"]]
 
 
 # ------------------------------------------------------------------ correspondence
 
 def configs():
     for gi, li, mod, gcm, act, evr in itertools.product(
-            [None, 0, 1, 2, 3], [None, "same", 0, 1, 2, 3], [False, True], [False, True], ACTS, [False, True]):
+            [None, 0, 1, 2, 3, 4, 5], [None, "same", 0, 1, 2, 3, 4, 5], [False, True], [False, True], ACTS, [False, True]):
         if li == "same" and gi is None:
             continue
         yield dict(g=gi, l=li, module=mod, gcm_raises=gcm, act=act, eval_raises=evr)
@@ -52,7 +52,8 @@ def configs():
 def coq_dict(keys, old):
     items = []
     for k in keys:
-        items.append('(VStr "hy", VRef %d)' % old if k == "hy" else '(VStr "x", VInt 0)')
+        items.append('(VStr "hy", VRef %d)' % old if k == "hy" else
+                     '(VStr "hy", VNone)' if k == "hyNone" else '(VStr "x", VInt 0)')
     return "[" + "; ".join(items) + "]"
 
 
@@ -88,7 +89,7 @@ def impl_run(c, positional):
     OLDG, OLDL, NEW, MOD, MODEL = Obj(1007), Obj(1008), Obj(1300), Obj(1400), Obj(-1)
 
     def mk(keys, old):
-        return {k: (old if k == "hy" else 0) for k in keys}
+        return {("hy" if k == "hyNone" else k): (old if k == "hy" else None if k == "hyNone" else 0) for k in keys}
     G = None if c["g"] is None else mk(DVARIANTS[c["g"]], OLDG)
     L = None if c["l"] is None else (G if c["l"] == "same" else mk(DVARIANTS[c["l"]], OLDL))
     Lshadow = mk(DVARIANTS[c["l"]], OLDL) if isinstance(c["l"], int) else {}
@@ -194,8 +195,10 @@ def correspondence(chk):
         # the property on the model's result (search source 2: names the failing configuration)
         given = c["g"] is not None or c["l"] is not None
         if given:
-            want_g = 1007 if (c["g"] is not None and "hy" in DVARIANTS[c["g"]]) else -3
-            want_l = 1008 if (isinstance(c["l"], int) and "hy" in DVARIANTS[c["l"]]) else -3
+            def want(v, old):
+                return old if "hy" in v else 0 if "hyNone" in v else -3
+            want_g = want(DVARIANTS[c["g"]], 1007) if c["g"] is not None else -3
+            want_l = want(DVARIANTS[c["l"]], 1008) if isinstance(c["l"], int) else -3
             if m[0] not in ("ok", "exc") or m[3] != want_g or m[4] != want_l:
                 model_bad.append(c)
     chk.count("correspondence:configs", len(cfgs))
@@ -323,6 +326,12 @@ def oracle(chk):
     class Sentinel:
         pass
 
+    class LookAlike:
+        """quacks like the hy module for the attributes generated programs use, but is not it"""
+        mangle = staticmethod(hy.mangle)
+        models = hy.models
+        eval = staticmethod(hy.eval)
+
     def preset():
         return {"a": rng.randint(0, 5), "b": "bee", "lst": [rng.randint(0, 9) for _ in range(3)]}
 
@@ -333,10 +342,16 @@ def oracle(chk):
         L = None if lmode == "none" else (G if lmode == "same" else {})
         if G is None and L is not None:
             L.update(preset())
-        old = {}
+        # a prior hy entry: absent, an ordinary object, or a value that is falsy / None / looks like the module
+        priors = ["absent", "absent", "object", "object", "None", "zero", "empty-str", "False", "empty-tuple", "lookalike"]
+        prior_kind = {}
         for nm, d in (("G", G), ("L", L)):
-            if d is not None and (nm == "G" or d is not G) and rng.random() < 0.5:
-                d["hy"] = Sentinel()
+            if d is not None and (nm == "G" or d is not G):
+                pk = rng.choice(priors)
+                prior_kind[nm] = pk
+                if pk != "absent":
+                    d["hy"] = {"object": Sentinel(), "None": None, "zero": 0, "empty-str": "", "False": False,
+                               "empty-tuple": (), "lookalike": LookAlike()}[pk]
         ncalls = rng.randint(1, 5)
         history = []
         for ci in range(ncalls):
@@ -409,7 +424,7 @@ def oracle(chk):
                 outcome = ("ok", got)
             except Exception as e:  # noqa: BLE001
                 outcome = ("exc", e)
-            desc = {"globals": gmode, "locals": lmode, "prior_hy": {k: v[0] for k, v in before.items()},
+            desc = {"globals": gmode, "locals": lmode, "prior_hy": dict(prior_kind),
                     "source": src, "reader": "read-many" if use_many else "read", "module": module_arg,
                     "call_index": ci, "earlier_calls": history[-4:]}
             how = ("PYTHONPATH=%s python -c \"import hy; G=%s; print(hy.eval(hy.%s(%r)%s)); print('hy' in G)\""
@@ -440,10 +455,12 @@ def oracle(chk):
             history.append((src, outcome[0]))
             chk.count("mode:" + mode)
             chk.count("ns:%s/%s" % (gmode, lmode))
+            for pk in prior_kind.values():
+                chk.count("prior-hy:" + pk)
             chk.count("outcome:" + outcome[0])
             nontrivial = (outcome[0] == "exc" or st["uses_hy"] or mode in ("rebind-hy", "del-hy", "nested")
                           or any(v[0] for v in before.values()))
-            chk.case((gmode, lmode, tuple(sorted((k, v[0]) for k, v in before.items())), src, module_arg),
+            chk.case((gmode, lmode, tuple(sorted(prior_kind.items())), src, module_arg),
                      nontrivial=nontrivial,
                      sample={"namespaces": "%s/%s" % (gmode, lmode), "source": src, "outcome": outcome[0]}
                      if (s * 7 + ci) % 97 == 3 else None)
